@@ -23,7 +23,7 @@
    Every `raise` is an Error; the fuel of the depth-first export is shown unreachable (Proofs/C01EProofs*.v). *)
 From Coq Require Import String Ascii DecimalString.
 Require Import Hdl21.Base.PyInt Hdl21.Spec.PySlice Hdl21.Model.Slice Hdl21.Model.Resolve Hdl21.Base.Design
-               Hdl21.Spec.Nets Hdl21.Spec.WfDesign Hdl21.Base.Package Hdl21.Model.Arrays Hdl21.Model.Export
+               Hdl21.Spec.Nets Hdl21.Spec.WfDesign Hdl21.Base.Package Hdl21.Base.PrimTable Hdl21.Model.Arrays Hdl21.Model.Export
                Hdl21.Proofs.FunGraph.
 Require Hdl21.Spec.BundleSpec Hdl21.Model.BundleFlat Hdl21Gen.C10Tables.
 Open Scope string_scope.
@@ -421,3 +421,45 @@ Definition elab_export_model (xi : xinfo) (d : design) : result package :=
   d' <- elab_model xi d ;; export_model xi d'.
 
 Definition top_name (d : design) : result name := m <- nth_mod d (d_top d) ;; Ok (m_name m).
+
+(* ------------------------------------------------------------------------------------------------ xinfo is about this design *)
+(* The leaf devices of the design language carry an identity string and their ports; `xinfo` says how the exporter
+   writes them.  xinfo_ok: every device of the design has an entry that spells exactly its identity string and whose
+   declaration (its own external module, else the primitive library) has exactly its ports, of width >= 1 and with
+   distinct names; entries written under one (domain, name) agree. *)
+Definition ext_ports (e : pext) : list (name * Z) := map (fun pwd : name * Z * Z => (fst (fst pwd), snd (fst pwd))) (px_ports e).
+
+Fixpoint ports_eqb (a b : list (name * Z)) : bool :=
+  match a, b with
+  | [], [] => true
+  | x :: a', y :: b' => String.eqb (fst x) (fst y) && (snd x =? snd y) && ports_eqb a' b'
+  | _, _ => false
+  end.
+
+Definition dev_decl (v : devinfo) : option pext :=
+  match dv_ext v with Some e => Some e | None => find_ext Hdl21.Base.PrimTable.prims_ext (dv_dom v) (dv_name v) end.
+
+Definition dev_ok (xi : xinfo) (dev : name) (ports : list (name * Z)) : bool :=
+  match assoc dev (x_devs xi) with
+  | None => false
+  | Some v =>
+      String.eqb (dev_string v) dev && forallb (fun pw : name * Z => 1 <=? snd pw) ports && nodup_names (map fst ports) &&
+      match dv_ext v with
+      | Some e => String.eqb (px_domain e) (dv_dom v) && String.eqb (px_name e) (dv_name v)
+      | None => true
+      end &&
+      match dev_decl v with Some e => ports_eqb (ext_ports e) ports | None => false end
+  end.
+
+Definition same_decl (a b : devinfo) : bool :=
+  negb (String.eqb (dv_dom a) (dv_dom b) && String.eqb (dv_name a) (dv_name b)) ||
+  match dv_ext a, dv_ext b with
+  | Some e, Some f => ports_eqb (ext_ports e) (ext_ports f)
+  | None, None => true
+  | _, _ => false
+  end.
+
+Definition xinfo_ok (xi : xinfo) (d : design) : bool :=
+  forallb (fun a => forallb (fun b => same_decl (snd a) (snd b)) (x_devs xi)) (x_devs xi) &&
+  forallb (fun m => forallb (fun x => match i_of x with TDev dev ports => dev_ok xi dev ports | TMod _ => true end) (m_insts m))
+          (d_mods d).
